@@ -115,6 +115,13 @@ def profile(prop, g):
     return kw, cfg
 
 
+def canon_err(r):
+    """lexical and syntactic errors form one class: ANTLR's parser pulls tokens lazily, so which of the two is reported
+    first depends on look-ahead, while the model lexes the whole file before parsing"""
+    if r.get('err') in ('lex', 'parse'): return ('syntax',)
+    return (r.get('err'), r.get('kind'))
+
+
 # ---- the generic module suite ------------------------------------------------------------------------------------
 def compare_case(prop, m, cfg, src, model, real):
     """returns (disagreement or None, violation or None, tags)"""
@@ -127,7 +134,7 @@ def compare_case(prop, m, cfg, src, model, real):
         dis = dict(kind='error-status', model=model if 'err' in model else 'ok', real=real if 'err' in real else 'ok')
     elif 'err' in model:
         tags.append('err:' + model['err'])
-        if (model.get('err'), model.get('kind'), model.get('pos')) != (real.get('err'), real.get('kind'), real.get('pos')):
+        if canon_err(model) != canon_err(real):
             dis = dict(kind='error-kind', model=model, real=real)
     else:
         pm = oracle.project(prop, model['rst'], model['entries'])
